@@ -420,3 +420,17 @@ func post_Pingresp_EncodeTo(w io.Writer, res0 int, res1 error) bool {
 func post_Disconnect_EncodeTo(w io.Writer, res0 int, res1 error) bool {
 	return specEmptyPacket(TypeOfDisconnect, res0, res1)
 }
+
+// ---------------------------------------------------------------------------------------------------------
+// 3.9 SUBACK: packet identifier, then one return code per subscription, to the end of the body.
+
+//@ verify decodeSuback pre=pre_decodeID post=post_decodeSuback props=C16
+//@ loop decodeSuback 0 inv inv_decodeSuback modifies=qoses
+func inv_decodeSuback(data []byte, bookmark uint32, maxlen uint32, qoses []uint8) bool {
+	return int(maxlen) == len(data) && 2 <= bookmark && bookmark <= maxlen && len(qoses) == int(bookmark)-2 &&
+		vs.Forall(0, len(qoses), func(j int) bool { return qoses[j] == data[2+j] })
+}
+func post_decodeSuback(data []byte, res0 Message) bool {
+	s, ok := res0.(*Suback)
+	return ok && s.MessageID == specU16(data, 0) && vs.SameBytes(s.Qos, data[2:])
+}
